@@ -12,9 +12,10 @@ for log in sys.argv[1:]:
         sd, prop, ex, dw, dwo, rc, viol = m.groups()
         base = os.path.basename(sd)
         sid = base.replace("seed_", "")
-        if base.startswith("seed2_"):
-            pr, n = base[len("seed2_"):].rsplit("_", 1)
-            sid = "%s_r2_%s" % (pr, n)
+        for rnd in ("2", "3"):
+            if base.startswith("seed%s_" % rnd):
+                pr, n = base[len("seed%s_" % rnd):].rsplit("_", 1)
+                sid = "%s_r%s_%s" % (pr, rnd, n)
         confirmed = ex == "pass" and dw == "fail" and dwo == "pass"
         detail = [x for x in lines[i + 1:i + 8] if x and not x.startswith("SEED")]
         rule = next((x.split(":", 1)[1].strip() for x in detail if x.strip().startswith("monitor:")), None)
